@@ -21,6 +21,10 @@ are additionally tagged with the function they occur in, and for `phasing._block
 `phasing.block_singletons` every *use* of a value derived from them is classified as guarded by
 `individuals_unphased[...]` or not.
 
+Site positions.  For every read of `sites_position` the index expression is recorded
+(`sitesPositionIndex`): the dating path may look at site positions only through
+`sites_position[<ts>.mutations_site]`, never at the whole per-site column.
+
 Output: lean/TsdateVerif/Gen/ReadSet.lean.
 """
 
@@ -142,9 +146,11 @@ def reachable(mods):
 
 
 class ReadCollector(ast.NodeVisitor):
-    def __init__(self, mod, qual, universe, out):
+    def __init__(self, mod, qual, universe, out, site_index):
         self.mod, self.qual, self.universe, self.out = mod, qual, universe, out
         self.indiv_loop_vars = set()
+        self.indexed = set()
+        self.site_index = site_index
 
     def receiver_ok(self, value):
         if isinstance(value, ast.Name) and value.id in ("self", "cls"):
@@ -163,7 +169,19 @@ class ReadCollector(ast.NodeVisitor):
             self.indiv_loop_vars.add(node.target.id)
         self.generic_visit(node)
 
+    def visit_Subscript(self, node):
+        # how the per-site column `sites_position` is indexed: the dating path must only ever look at
+        # the positions of sites that carry a mutation, i.e. `sites_position[<…>.mutations_site]`
+        v = node.value
+        if isinstance(v, ast.Attribute) and v.attr == "sites_position" and self.receiver_ok(v.value):
+            self.indexed.add(id(v))
+            self.site_index.append((self.mod.name + "." + self.qual, ast.unparse(node.slice)))
+        self.generic_visit(node)
+
     def visit_Attribute(self, node):
+        if node.attr == "sites_position" and isinstance(node.ctx, ast.Load) and self.receiver_ok(node.value) \
+                and id(node) not in self.indexed:
+            self.site_index.append((self.mod.name + "." + self.qual, "<whole column>"))
         if isinstance(node.ctx, ast.Load) and node.attr in self.universe and self.receiver_ok(node.value):
             recv = G.dotted(node.value) or type(node.value).__name__
             tag = node.attr
@@ -267,9 +285,9 @@ def analyse():
     mods = load()
     universe = tskit_universe()
     reach = reachable(mods)
-    reads = []
+    reads, site_index = [], []
     for mod, q in reach:
-        ReadCollector(mods[mod], q, universe, reads).visit(mods[mod].funcs[q])
+        ReadCollector(mods[mod], q, universe, reads, site_index).visit(mods[mod].funcs[q])
     # individuals
     ph = mods["phasing"]
     if "_block_singletons" not in ph.funcs or "block_singletons" not in ph.funcs:
@@ -307,7 +325,7 @@ def analyse():
         if isinstance(n, ast.Assign) and len(n.targets) == 1 and G.dotted(n.targets[0]) == "individual_phased":
             phased_def = ast.unparse(n.value)
     digest = G.sha(*[mods[m].src for m in sorted(mods)])
-    return dict(reads=reads, reach=reach, uses_inner=uses_inner, uses_outer=uses_outer,
+    return dict(reads=reads, site_index=site_index, reach=reach, uses_inner=uses_inner, uses_outer=uses_outer,
                 unphased_arg=unphased_arg or "?", phased_def=phased_def or "?", digest=digest,
                 modules=sorted(mods))
 
@@ -342,6 +360,10 @@ def render(a):
           "/-- `phasing.block_singletons`: every use of the loop variable over `ts.individuals()` -/",
           "def blockSingletonsWrapperUses : List (Nat × String × Bool) := [" +
           ", ".join(f"({ln}, {G.lean_str(nm)}, {'true' if g else 'false'})" for ln, nm, g in a["uses_outer"]) + "]", "",
+          "/-- every read of the per-site column `sites_position` on the dating path: (function, index expression);",
+          "`<whole column>` when it is used without being indexed -/",
+          "def sitesPositionIndex : List (String × String) := [" +
+          ", ".join(f"({G.lean_str(f)}, {G.lean_str(ix)})" for f, ix in a["site_index"]) + "]", "",
           "/-- second argument of the `block_singletons(ts, …)` call in `ExpectationPropagation.__init__` -/",
           f"def unphasedArgument : String := {G.lean_str(a['unphased_arg'])}",
           "/-- definition of `individual_phased` there -/",
